@@ -831,6 +831,42 @@ func ruleC15(c *Ctx, r *Report) {
 			"a '$field' reference met as a value is stored as HashName(reference) under the flag",
 			"this walker never renames a '$field' reference it meets as a value: under --redactFieldNames such a reference becomes the generic placeholder instead of the pseudonym the same field has as a key")
 	}
+	// a key that starts with '$' is an operator / extended-JSON wrapper, never a user field:
+	// every key rename is guarded by "does not start with '$'"
+	for _, call := range p.hashCallSites() {
+		feedsKey := false
+		seen := map[ssa.Value]bool{}
+		var visit func(v ssa.Value)
+		visit = func(v ssa.Value) {
+			if seen[v] {
+				return
+			}
+			seen[v] = true
+			for _, use := range referrers(v) {
+				switch x := use.(type) {
+				case *ssa.Phi:
+					visit(x)
+				case *ssa.Call:
+					if calleeKey(&x.Call) == omMethod("Set") && x.Call.Args[1] == v {
+						feedsKey = true
+					}
+				}
+			}
+		}
+		visit(call)
+		if !feedsKey {
+			continue
+		}
+		notOp := false
+		for _, a := range p.atomsAt(call.Block()) {
+			if a.Kind == "dollar" && !a.Pol && (a.X == call.Call.Args[0] || rootOf(a.X) == rootOf(call.Call.Args[0])) {
+				notOp = true
+			}
+		}
+		r.Check(notOp, "C15-R3", fmt.Sprintf("%s:key-rename-not-an-operator", call.Parent().Name()), c.InstrPos(call),
+			"a key is renamed only where it is known not to start with '$'",
+			"a key is renamed without a test that it does not start with '$': operator and wrapper keys missing from the tables ($options, $numberLong, accumulators ...) are pseudonymised as if they were user fields, so the line differs structurally from the run without the flag")
+	}
 	c01Dispatch2(c, r, p, []string{"sort"}, "C15-R3")
 	// output-field names that later stages use as field names are FieldName positions
 	// (kept in clear by default, renamed with the field under the flag) - not Exempt
